@@ -11,7 +11,8 @@ from common import run_driver
 RULE = ('random well-formed HPOA files (both header styles, version/date/other comment lines, 1-6 diseases, 1-8 phenotype ids, repeated '
         'lines, aspects P/I/C/M in both cases, qualifier NOT/not/empty, frequency as empty, n/m, negated 0/0, each of the six HPO '
         'frequency terms on present and negated lines, percentages with and without decimals; reference/modifier lists with repeats) x '
-        'cohort_size in {1,5,7,50,53,1000} x salvage_negated_frequencies x line shuffles. The table of frequency terms is read from the '
+        'cohort_size in {1,5,7,50,53,1000} x salvage_negated_frequencies x line shuffles. The ranges of the six frequency terms are PINNED to the '
+        'HPO definitions (0; 1-4 %; 5-29 %; 30-79 %; 80-99 %; 100 %) and the code\'s table must state them; the table of frequency terms is read from the '
         'running code (exact rationals of the floats) and passed to the Lean model, which also evaluates lower<=freq<=upper<=1 per row. '
         'Compared: version, len, per disease sorted (phenotype, numerator in the model\'s admissible set, denominator, is_present, '
         'sorted references with evidence, sorted modifiers), modes of inheritance with their Python type; plus the property\'s clauses '
@@ -20,6 +21,12 @@ RULE = ('random well-formed HPOA files (both header styles, version/date/other c
 
 THEOREM = 'Hpv.Props.C08.*'
 TERMS = ['HP:0040280', 'HP:0040281', 'HP:0040282', 'HP:0040283', 'HP:0040284', 'HP:0040285']
+
+
+# the ranges the HPO defines for its frequency terms (the property's "that term's defined range"): pinned, NOT read from the code
+DEFINED = {'HP:0040285': (Fraction(0), Fraction(0)), 'HP:0040284': (Fraction(1, 100), Fraction(4, 100)),
+           'HP:0040283': (Fraction(5, 100), Fraction(29, 100)), 'HP:0040282': (Fraction(30, 100), Fraction(79, 100)),
+           'HP:0040281': (Fraction(80, 100), Fraction(99, 100)), 'HP:0040280': (Fraction(1), Fraction(1))}
 
 
 def table_from_source():
@@ -98,7 +105,21 @@ def dump_impl(ds):
                       for a in d.annotations)
         moi = sorted([getattr(m, 'value', str(m)), type(m).__name__ if not hasattr(m, 'value') else 'TermId'] for m in d.modes_of_inheritance)
         out.append({'id': d.identifier.value, 'name': d.name, 'anns': anns, 'moi': moi})
-    return {'version': ds.version, 'len': len(ds), 'ids': sorted(x.value for x in ds.item_ids()), 'diseases': sorted(out, key=lambda x: x['id'])}
+        # every way of getting at a disease gives THE disease: [TermId], [CURIE], items, the deprecated aliases; frequency() = n/d
+        if ds[d.identifier] is not d or ds[d.identifier.value] is not d:
+            out[-1]['views'] = f'ds[{d.identifier.value}] is not the disease that iteration yields'
+        for a in d.annotations:
+            if a.frequency() != a.numerator / a.denominator or bool(a.is_absent) != (a.numerator == 0) or bool(a.is_excluded) != (a.numerator == 0):
+                out[-1]['views'] = f'{a.identifier.value}: frequency()/is_absent/is_excluded disagree with {a.numerator}/{a.denominator}'
+    with warnings.catch_warnings():
+        warnings.simplefilter('ignore')
+        ids = sorted(x.value for x in ds.item_ids())
+        views = {'items': sorted(d.identifier.value for d in ds.items), 'diseases': sorted(d.identifier.value for d in ds.diseases),
+                 'disease_ids': sorted(x.value for x in ds.disease_ids), 'unknown': [ds['OMIM:999999999'], ds['X:1']]}
+    dump = {'version': ds.version, 'len': len(ds), 'ids': ids, 'diseases': sorted(out, key=lambda x: x['id'])}
+    if views != {'items': ids, 'diseases': ids, 'disease_ids': ids, 'unknown': [None, None]}:
+        dump['views'] = views          # only present when the views disagree (the model's dump has no such key)
+    return dump
 
 
 def load_impl(world, hpo, text_lines, cohort, salvage):
@@ -122,8 +143,7 @@ def property_clauses(dump, table, cohort, single_line_freq):
                 return f'{d["id"]} {pid}: is_present={present} with numerator {n}'
             f = single_line_freq.get((d['id'], pid))
             if f and f[0] == 'term':
-                r = rows[f[1]]
-                lo, hi = Fraction(r['lower'], r['denom']) * cohort, Fraction(r['upper'], r['denom']) * cohort
+                lo, hi = DEFINED[f[1]][0] * cohort, DEFINED[f[1]][1] * cohort
                 if not (lo - Fraction(1, 2) <= n <= hi + Fraction(1, 2)):
                     return f'{d["id"]} {pid}: frequency term {f[1]} at cohort {cohort} gives {n}/{den}, outside [{float(lo)}, {float(hi)}] +- 1/2'
             if f and f[0] == 'percent':
@@ -175,8 +195,11 @@ def evaluate(ctx, world, hpo, table, cases, stream):
                 problem = {'what': 'loaded-although-model-raises', 'model': rep['err']}
             else:
                 clause = property_clauses(impl, table, c['cohort'], single_line_cells(c['lines']))
+                view_problem = impl.get('views') or next((d['views'] for d in impl['diseases'] if 'views' in d), None)
                 if clause:
                     problem = {'what': 'property-clause', 'impl': clause}
+                elif view_problem:
+                    problem = {'what': 'views-of-the-result-disagree', 'impl': view_problem}
                 else:
                     md = sorted(rep['diseases'], key=lambda x: x['id'])
                     if impl['version'] != rep['version'] or impl['len'] != len(md) or impl['ids'] != [d['id'] for d in md]:
@@ -223,11 +246,46 @@ def consistent_names(lines):
 def run(ctx):
     rng = ctx.rng
     thorough = ctx.tier == 'thorough'
-    table = table_from_source()
-    ctx.notes.append('frequency table read from the source: ' + '; '.join(f'{r["id"]} {r["float"]}' for r in table))
     hpo = toy_hpo()
     world = tempfile.mkdtemp(prefix='verif-c08-')
+    cols0 = 'database_id\tdisease_name\tqualifier\thpo_id\treference\tevidence\tonset\tfrequency\tsex\tmodifier\taspect\tbiocuration'
+
+    def search_with_pinned_ranges(why, detail):
+        """the table obligation is broken: look for a concrete line on which the implementation leaves the DEFINED range"""
+        for t in TERMS:
+            line = '\t'.join(['OMIM:100000', 'D', '', 'HP:0001250', 'PMID:1', 'PCS', '', t, '', '', 'P', 'HPO:x'])
+            for cohort in (50, 7, 1000, 1, 5, 53):
+                try:
+                    impl = dump_impl(load_impl(world, hpo, [cols0, line], cohort, False))
+                    clause = property_clauses(impl, [], cohort, {('OMIM:100000', 'HP:0001250'): ('term', t)})
+                except Exception as e:  # noqa
+                    clause = f'raises {type(e).__name__}: {e}'
+                if clause:
+                    ctx.violation(f'table:{t}', {'case': {'kind': 'hpoa', 'head': [cols0], 'lines': [line], 'cohort': cohort, 'salvage': False},
+                                                 'impl': clause, 'obligation': why, 'detail': detail,
+                                                 'theorem': 'Hpv.Props.C08.frequency_rounding (the table of the running code must be the HPO definition)'})
+                    return True
+        ctx.violation('table-obligation', {'obligation': why, 'detail': detail, 'theorem': 'Hpv.Props.C08.frequency_rounding'}, no_input=True)
+        return False
     try:
+        table = table_from_source()
+    except Exception as e:  # noqa
+        try:
+            search_with_pinned_ranges('the frequency table could not be read from the running code', f'{type(e).__name__}: {e}')
+        finally:
+            shutil.rmtree(world, ignore_errors=True)
+        return
+    ctx.notes.append('frequency table read from the source: ' + '; '.join(f'{r["id"]} {r["float"]}' for r in table))
+    try:
+        # obligation 0: the table of the running code states the ranges the HPO defines (bounds as exact decimals)
+        got = {r['id']: (Fraction(str(r['float'][0])), Fraction(str(r['float'][2]))) for r in table}
+        if got != DEFINED:
+            search_with_pinned_ranges('the frequency table of the running code differs from the ranges the HPO defines',
+                                      {'code': {k: [str(a), str(b)] for k, (a, b) in got.items()}, 'defined': {k: [str(a), str(b)] for k, (a, b) in DEFINED.items()}})
+        if any(min(r['lower'], r['freq'], r['upper']) < 0 for r in table):
+            # not even representable in the model (naturals): the obligation lower <= frequency <= upper is broken outright
+            search_with_pinned_ranges('a row of the frequency table of the running code is negative', [r['float'] for r in table])
+            return
         # proof obligation on the generated table (evaluated by the model)
         probe = run_driver([{'op': 'hpoa.load', 'lines': [], 'cohort': 50, 'salvage': False,
                              'table': [{k: r[k] for k in ('id', 'lower', 'freq', 'upper', 'denom')} for r in table]}])[0]
